@@ -344,6 +344,10 @@ func runP(c *Ctx, d pDesc) {
 		for i, sz := range []int{0, 1, 1000, 1 << 20, maxPayload, 17, 300000, 9} {
 			body := randBytes(rnd, sz)
 			cc := fmt.Sprintf(`{"custom":{"i":"%d é"}}`, i)
+			if i%2 == 0 {
+				// standard base64 form contains '+' and '/' (runs of six hold an aligned triple)
+				cc = fmt.Sprintf(`{"custom":{"i":"%d ~~~~~~ ?????? >>>>>>"}}`, i)
+			}
 			hd := map[string]string{"X-Amz-Client-Context": base64.StdEncoding.EncodeToString([]byte(cc))}
 			if i%2 == 1 || i >= 6 {
 				hd["__chunked"] = "1"
